@@ -49,6 +49,8 @@ type ctrState struct {
 	full      map[string]int // loop -> clean full rounds completed after oblSeq
 	settled   map[string]bool
 	flagged   map[string]bool
+	cbCalls   int
+	cbErrs    int // clean-port calls that returned an error
 }
 
 type runtimeFake interface {
@@ -358,8 +360,9 @@ func (m *mon) podGet(ns, name string) string {
 	return state
 }
 
-// callback is the recording clean-port function handed to the collector.
-func (m *mon) callback(id string) {
+// callback is the recording clean-port function handed to the collector. It returns the scripted error of the
+// recording mode (nil in real wiring, where the caller reports the real result through callbackResult).
+func (m *mon) callback(id string) error {
 	m.mu.Lock()
 	defer m.mu.Unlock()
 	m.seq++
@@ -377,7 +380,34 @@ func (m *mon) callback(id string) {
 	}
 	if m.s0Taken && m.outageState == 1 {
 		m.violate("cleanport-called-during-runtime-outage-"+m.p.Outage.Kind, fmt.Sprintf("clean-port callback for %s at seq %d "+
-			"while the runtime was unreachable (nothing was answered since inspect #%d and both loops' sentinel inspects were held, i.e. both loops had acted on every earlier answer, at seq %d)", id, m.seq, m.outagePos, m.s0Seq), id, nil)
+			"while the runtime was unreachable (nothing was answered since inspect #%d and both loops' sentinel inspects were "+
+			"held, i.e. both loops had acted on every earlier answer, at seq %d)", id, m.seq, m.outagePos, m.s0Seq), id, nil)
+	}
+	if cs == nil {
+		return nil
+	}
+	cs.cbCalls++
+	if !m.p.RealCallback && (cs.spec.CBFail < 0 || cs.cbCalls <= cs.spec.CBFail) {
+		cs.cbErrs++
+		m.log[len(m.log)-1].Class = "returns-error"
+		m.run.Count("cleanport_errors_returned", 1)
+		return fmt.Errorf("scripted clean-port failure #%d for %s", cs.cbCalls, id)
+	}
+	return nil
+}
+
+// callbackResult notes the result of the real clean-port function.
+func (m *mon) callbackResult(id string, err error) {
+	if err == nil {
+		return
+	}
+	m.mu.Lock()
+	defer m.mu.Unlock()
+	m.seq++
+	m.ev("callback", id, "real-cleanup-error: "+err.Error(), false)
+	m.run.Count("cleanport_errors_returned", 1)
+	if cs := m.ctr[id]; cs != nil {
+		cs.cbErrs++
 	}
 }
 
@@ -470,8 +500,12 @@ func (m *mon) roundEnd(l string, q int) {
 		}
 		left, total := 0, 0
 		var first *tfile
+		mayFail := cs.spec.portCleanMayFail()
 		for _, f := range m.files {
 			if f.ID == cs.spec.ID && f.Container && f.Loop == l {
+				if mayFail && (f.Kind == "portfile" || f.Kind == "portmapping") {
+					continue // the cleanup of the port state may legitimately fail; the state FILES are owed
+				}
 				total++
 				if f.present {
 					left++
@@ -491,12 +525,22 @@ func (m *mon) roundEnd(l string, q int) {
 			m.run.Max("max_rounds_to_removal", int64(cs.full[l]))
 			continue
 		}
-		if cs.full[l] >= 2 && !cs.flagged[l] {
+		// a clean-port callback that fails only its first n calls: a collector that retries "next time" gets n extra passes
+		bound := 2
+		if cs.spec.CBFail > 0 {
+			bound += cs.spec.CBFail
+		}
+		if cs.full[l] >= bound && !cs.flagged[l] {
 			cs.flagged[l] = true
-			m.violate("dead-container-"+first.Kind+"-not-removed-after-2-rounds", fmt.Sprintf("container %s has been answered %s "+
-				"since seq %d; the %s loop has completed %d full passes after that (runtime reachable throughout) and %s "+
-				"still exists (%d of %d files left)", cs.spec.ID, cs.lastClass, cs.oblSeq, l, cs.full[l], first.Path, left, total),
-				cs.spec.ID, first)
+			sig := "dead-container-" + first.Kind + "-not-removed-after-2-rounds"
+			extra := ""
+			if cs.cbErrs > 0 && l == "gc" {
+				sig = "dead-container-" + first.Kind + "-kept-while-portclean-fails"
+				extra = fmt.Sprintf("; its clean-port callback was called %d times and returned an error %d times", cs.cbCalls, cs.cbErrs)
+			}
+			m.violate(sig, fmt.Sprintf("container %s has been answered %s since seq %d; the %s loop has completed %d full "+
+				"passes after that (runtime reachable throughout, bound %d) and %s still exists (%d of %d files left)%s",
+				cs.spec.ID, cs.lastClass, cs.oblSeq, l, cs.full[l], bound, first.Path, left, total, extra), cs.spec.ID, first)
 		}
 	}
 	m.cond.Broadcast()
@@ -636,7 +680,7 @@ func (m *mon) postPoll() {
 func (m *mon) summarize() bool {
 	m.mu.Lock()
 	defer m.mu.Unlock()
-	var keptLive, keptNonCtr, goneDead, obl int
+	var keptLive, keptNonCtr, goneDead, obl, failing int
 	for _, f := range m.files {
 		cs := m.ctr[f.ID]
 		switch {
@@ -655,6 +699,9 @@ func (m *mon) summarize() bool {
 		}
 		if cs.oblSeq > 0 {
 			obl++
+			if cs.cbErrs > 0 {
+				failing++
+			}
 		}
 		if cs.firstDead > 0 {
 			deadC++
@@ -672,6 +719,7 @@ func (m *mon) summarize() bool {
 	m.run.Count("containers_only_alive_answers", int64(liveC))
 	m.run.Count("containers_only_error_or_alive_answers", int64(errC))
 	m.run.Count("liveness_obligations", int64(obl))
+	m.run.Count("dead_containers_with_failing_portclean", int64(failing))
 	if m.p.Outage.Kind != "none" && m.outageState == 0 {
 		m.run.Count("outage_not_reached", 1)
 	}
